@@ -83,6 +83,14 @@ where
         Ok(())
     }
 
+    /// a server only answers frames addressed to one of its own unit ids
+    fn is_addressed_to_us(&mut self, destination: FrameDestination) -> bool {
+        match destination {
+            FrameDestination::UnitId(unit_id) => self.handlers.get(unit_id).is_some(),
+            FrameDestination::Broadcast => false,
+        }
+    }
+
     pub(crate) async fn run(&mut self, io: &mut PhysLayer) -> RequestError {
         loop {
             if let Err(err) = self.run_one(io).await {
@@ -160,6 +168,9 @@ where
                 Some(x) => x,
                 None => {
                     tracing::warn!("received unknown function code: {}", value);
+                    if !self.is_addressed_to_us(frame.header.destination) {
+                        return Ok(());
+                    }
                     return self
                         .reply_with_error_generic(
                             io,
@@ -176,6 +187,9 @@ where
             Ok(x) => x,
             Err(err) => {
                 tracing::warn!("error parsing {:?} request: {}", function, err);
+                if !self.is_addressed_to_us(frame.header.destination) {
+                    return Ok(());
+                }
                 return self
                     .reply_with_error(io, frame.header, function, ExceptionCode::IllegalDataValue)
                     .await;
